@@ -10,6 +10,7 @@ import (
 	sdkmath "cosmossdk.io/math"
 
 	"github.com/EscanBE/evermint/v12/utils"
+	authtypes "github.com/cosmos/cosmos-sdk/x/auth/types"
 	govtypes "github.com/cosmos/cosmos-sdk/x/gov/types"
 	"github.com/ethereum/go-ethereum/common"
 	ethtypes "github.com/ethereum/go-ethereum/core/types"
@@ -67,9 +68,29 @@ func (k *Keeper) EthereumTx(goCtx context.Context, msg *evmtypes.MsgEthereumTx) 
 		labels = append(labels, telemetry.NewLabel("execution", "call"))
 	}
 
+	senderPaidTxFeeInAnteHandle := k.IsSenderPaidTxFeeInAnteHandle(ctx)
+
 	response, err := k.ApplyTransaction(ctx, ethTx)
 	if err != nil {
 		return nil, errorsmod.Wrap(err, "failed to apply transaction")
+	}
+
+	if senderPaidTxFeeInAnteHandle && response.GasUsed < ethTx.Gas() {
+		// The ante handler moved the fee of the whole gas limit to the fee collector
+		// and the state transition refunded the unused gas to the sender by minting,
+		// so the refunded amount must be taken out of the fee collector,
+		// otherwise the refund would be created out of nothing.
+		refundedGas := new(big.Int).SetUint64(ethTx.Gas() - response.GasUsed)
+		refundedFee := new(big.Int).Mul(refundedGas, evmutils.EthTxEffectiveGasPrice(ethTx, k.feeMarketKeeper.GetBaseFee(ctx)))
+		if refundedFee.Sign() > 0 {
+			refundedCoins := sdk.NewCoins(sdk.NewCoin(k.GetParams(ctx).EvmDenom, sdkmath.NewIntFromBigInt(refundedFee)))
+			if err := k.bankKeeper.SendCoinsFromModuleToModule(ctx, authtypes.FeeCollectorName, evmtypes.ModuleName, refundedCoins); err != nil {
+				return nil, errorsmod.Wrap(err, "failed to take the refunded fee from fee collector")
+			}
+			if err := k.bankKeeper.BurnCoins(ctx, evmtypes.ModuleName, refundedCoins); err != nil {
+				return nil, errorsmod.Wrap(err, "failed to burn the refunded fee")
+			}
+		}
 	}
 
 	defer func() {
